@@ -116,4 +116,176 @@ Proof.
       split; [exact HU|]. split; [exact HRc|]. rewrite Nat2Z.inj_succ. unfold W3 in *. nia.
 Qed.
 
+(* ---------------------------------------------------------------------------------------- *)
+(* delivery to the peer APPLICATION: what the receive path has accepted is read               *)
+(* ---------------------------------------------------------------------------------------- *)
+Definition read_off (e : endpoint) : Z := l_len (ep_read e).
+
+Definition Jr (L0 r0 T : Z) (fa : fair_aux) (st : net) : Prop :=
+  NI st /\ opts_ok st /\ dl_sync Da fa st /\
+  read_off (net_get st y) = r0 /\ r0 < rcv_off (net_get st y) /\ L0 <= rcv_off (net_get st y) /\
+  net_now st y <= T /\ (exists t, fa_rd fa y = Some t /\ t <= T).
+
+Definition Qr (L0 r0 : Z) (st : net) : Prop :=
+  r0 < read_off (net_get st y) /\ L0 <= rcv_off (net_get st y).
+
+Lemma rx_is_diff st : rx_len st y = rcv_off (net_get st y) - read_off (net_get st y).
+Proof. unfold rx_len, rcv_off, read_off, net_sock. lia. Qed.
+
+Lemma Jr_step L0 r0 T fa st ev st' :
+  oneway_safe x st -> oneway_safe x st' -> Jr L0 r0 T fa st -> fair_ev fa st ev -> net_step st ev = Ok st' ->
+  Qr L0 r0 st' \/ Jr L0 r0 T (fa_after Dt Da fa ev st') st'.
+Proof.
+  intros HR HR' (HN & Ho & Hsy & Hrd & Hrc & HL & Hclk & t & Ht & HtT) Hfe H.
+  pose proof (NI_step _ _ _ HN H) as HN'. pose proof (opts_step _ _ _ Ho H) as Ho'.
+  pose proof (fa_after_sync Dt Da _ _ _ _ Hsy Hfe H) as Hsy'.
+  (* what the step does to y's logs *)
+  assert (Hy : (r0 < read_off (net_get st' y) /\ rcv_off (net_get st y) <= rcv_off (net_get st' y)) \/
+               (read_off (net_get st' y) = r0 /\ rcv_off (net_get st y) <= rcv_off (net_get st' y) /\
+                (forall z n, ev = NRecv z n -> side_eqb z y && (0 <? n) = false))).
+  { destruct (net_step_kind _ _ _ H) as [w ev0 e' Hse He E | to i E1 _ E | d E1 E | w isn ts E1 E | to i Hd].
+    - destruct (side_cases x w) as [Ew | Ew]; subst w st'.
+      + right. rewrite net_get_set_other. split; [exact Hrd|]. split; [apply Z.le_refl|].
+        intros z n E. subst ev. cbn [sock_event] in Hse. destruct Hse as (-> & _).
+        rewrite side_eqb_other. reflexivity.
+      + change (side_other x) with y in He, Hse |- *. rewrite net_get_set_same.
+        pose proof (y_event_mono x _ _ _ _ HN HR Hse He) as Hm.
+        destruct (ep_step_spec _ _ _ He) as (s' & out & tags & Hs & Hk & _ & _ & _ & _ & Hrd' & _).
+        destruct ev; cbn [sock_event] in Hse; try contradiction.
+        * destruct Hse as (_ & p & _ & ->). right. unfold read_off. rewrite Hrd'. cbn [log_read].
+          split; [exact Hrd|]. split; [exact Hm|]. intros; discriminate.
+        * destruct Hse as (_ & ->). right. unfold read_off. rewrite Hrd'. cbn [log_read].
+          split; [exact Hrd|]. split; [exact Hm|]. intros; discriminate.
+        * destruct Hse as (_ & ->). right. unfold read_off. rewrite Hrd'. cbn [log_read].
+          split; [exact Hrd|]. split; [exact Hm|]. intros; discriminate.
+        * (* recv *)
+          destruct Hse as (-> & ->).
+          destruct (ow_rcv x st HR) as (_ & _ & Hrxwf & _). fold y in Hrxwf.
+          pose proof (ow_est x st HR y) as Hst. unfold net_sock in *.
+          cbn [tcp_step] in Hs. unfold tcp_recv_slice, tcp_recv_error_check, tcp_may_recv in Hs.
+          rewrite Hst in Hs. cbn [negb obind] in Hs.
+          destruct (rb_dequeue_slice (s_rx_buffer (ep_sock (net_get st y))) (Z.max 0 n)) as (rx, b) eqn:Ed.
+          assert (Hn0 : 0 <= Z.max 0 n) by lia.
+          destruct (TcpRecvBase.rb_dequeue_slice_spec _ _ _ _ Hrxwf Hn0 Ed) as (Hkk & _). cbv zeta in Hkk.
+          assert (Eo : out = OBytes b) by (inversion Hs; reflexivity). subst out.
+          unfold read_off in *. rewrite Hrd'. cbn [log_read]. rewrite TcpSendBase.l_len_app.
+          pose proof (rx_is_diff st) as Hdiff. unfold rx_len, net_sock, read_off in Hdiff.
+          destruct (Z.ltb_spec 0 n) as [Hpos | Hnp].
+          -- left. split; [lia | exact Hm].
+          -- right. split; [lia|]. split; [exact Hm|].
+             intros z n0 E. inversion E; subst. rewrite side_eqb_refl. cbn [andb].
+             destruct (Z.ltb_spec 0 n0); [lia | reflexivity].
+        * destruct Hse as (_ & ->). right. unfold read_off. rewrite Hrd'. cbn [log_read].
+          split; [exact Hrd|]. split; [exact Hm|]. intros; discriminate.
+    - subst st' ev. right. split; [exact Hrd|]. split; [apply Z.le_refl|]. intros; discriminate.
+    - subst st' ev. right. destruct (tick_same st d y) as (E1 & _ & E3 & _).
+      unfold read_off, rcv_off. rewrite E1, E3. split; [exact Hrd|]. split; [apply Z.le_refl|]. intros; discriminate.
+    - subst st' ev. right. destruct (rand_same st w isn ts y) as (E1 & _ & E3 & _).
+      unfold read_off, rcv_off. rewrite E1, E3. split; [exact Hrd|]. split; [apply Z.le_refl|]. intros; discriminate.
+    - exfalso. destruct Hd as [-> | ->]; exact Hfe. }
+  destruct Hy as [(Hq & Hm) | (Hr' & Hm & Hnr)]; [left; split; [exact Hq | lia]|].
+  right. split; [exact HN'|]. split; [exact Ho'|]. split; [exact Hsy'|].
+  split; [exact Hr'|]. split; [lia|]. split; [lia|].
+  split.
+  { rewrite (net_step_now _ _ _ y H). destruct ev; try lia.
+    destruct Hfe as (Hd0 & Hperm). destruct (Z.eq_dec d 0) as [-> | Hnz]; [lia|].
+    destruct (Hperm ltac:(lia) y) as (_ & _ & Hrdl). specialize (Hrdl t Ht). lia. }
+  exists t. split; [|exact HtT].
+  cbn [fa_after fa_rd].
+  assert (Hne : (rx_len st' y =? 0) = false) by (apply Z.eqb_neq; rewrite rx_is_diff; lia).
+  rewrite Hne, Ht.
+  destruct ev; try reflexivity. rewrite (Hnr _ _ eq_refl). reflexivity.
+Qed.
+
+(* one read: while octets are queued the application reads at least one within Da *)
+Theorem read_round : forall evs fa st st' L0 r0,
+  0 <= Da ->
+  NI st -> opts_ok st -> dl_sync Da fa st ->
+  run_all safe st evs -> fair_run Dt Da fa st evs -> net_run st evs = Ok st' ->
+  read_off (net_get st y) = r0 -> r0 < rcv_off (net_get st y) -> L0 <= rcv_off (net_get st y) ->
+  net_now st y + Da < net_now st' y ->
+  exists pre post fa1 st1,
+    evs = pre ++ post /\ net_run st pre = Ok st1 /\ net_run st1 post = Ok st' /\
+    run_all safe st1 post /\ fair_run Dt Da fa1 st1 post /\
+    NI st1 /\ opts_ok st1 /\ dl_sync Da fa1 st1 /\
+    Qr L0 r0 st1 /\ net_now st1 y <= net_now st y + Da.
+Proof.
+  intros evs fa st st' L0 r0 HDa HN Ho Hsy HRun Hfair Hrun Hrd Hrc HL Hlate.
+  set (T := net_now st y + Da).
+  assert (HJ : Jr L0 r0 T fa st).
+  { split; [exact HN|]. split; [exact Ho|]. split; [exact Hsy|]. split; [exact Hrd|].
+    split; [exact Hrc|]. split; [exact HL|]. split; [unfold T; lia|].
+    destruct Hsy as (_ & Hr). specialize (Hr y). pose proof (rx_is_diff st) as Hd.
+    destruct (fa_rd fa y) as [t|]; [|lia]. exists t. split; [reflexivity|]. unfold T. lia. }
+  destruct (fair_leads_under_last Dt Da safe (Jr L0 r0 T) (fun _ st => Qr L0 r0 st) y T
+              ltac:(intros fa0 st0 (_ & _ & _ & _ & _ & _ & A & _); exact A)
+              ltac:(intros fa0 st0 ev0 st0' R0 R0' J0 F0 S0; exact (Jr_step _ _ _ _ _ _ _ (proj1 R0) (proj1 R0') J0 F0 S0))
+              evs fa st st' HJ HRun Hfair Hrun ltac:(unfold T; lia))
+    as (pre & post & fa1 & st1 & E & Hp1 & Hp2 & HR1 & Hf1 & HQ & fa0 & st0 & ev0 & HJ0 & _ & Hfe0 & Hs0 & ->).
+  destruct HJ0 as (HN0 & Ho0 & Hsy0 & Hrd0 & _ & _ & Hclk0 & _).
+  exists pre, post, (fa_after Dt Da fa0 ev0 st1), st1.
+  split; [exact E|]. split; [exact Hp1|]. split; [exact Hp2|]. split; [exact HR1|]. split; [exact Hf1|].
+  split; [exact (NI_step _ _ _ HN0 Hs0)|]. split; [exact (opts_step _ _ _ Ho0 Hs0)|].
+  split; [exact (fa_after_sync Dt Da _ _ _ _ Hsy0 Hfe0 Hs0)|]. split; [exact HQ|].
+  rewrite (net_step_now _ _ _ y Hs0). destruct ev0; try (unfold T in *; lia).
+  exfalso. destruct HQ as (HQ & _).
+  rewrite (net_step_tick _ _ _ Hs0) in HQ. destruct (tick_same st0 d y) as (_ & _ & E3 & _).
+  unfold read_off in *. rewrite E3 in HQ. lia.
+Qed.
+
+(* everything the receive path has accepted (up to offset L0) reaches the application *)
+Theorem all_accepted_eventually_read : forall m evs fa st st' L0,
+  0 <= Da ->
+  NI st -> opts_ok st -> dl_sync Da fa st ->
+  run_all safe st evs -> fair_run Dt Da fa st evs -> net_run st evs = Ok st' ->
+  L0 <= rcv_off (net_get st y) ->
+  L0 - read_off (net_get st y) <= Z.of_nat m ->
+  net_now st y + Z.of_nat m * Da < net_now st' y ->
+  exists pre post st1, evs = pre ++ post /\ net_run st pre = Ok st1 /\ net_run st1 post = Ok st' /\
+                       L0 <= read_off (net_get st1 y).
+Proof.
+  intros m. induction m as [|m IH]; intros evs fa st st' L0 HDa HN Ho Hsy HRun Hfair Hrun HL Hm Hlate.
+  - exists [], evs, st. split; [reflexivity|]. split; [reflexivity|]. split; [exact Hrun | lia].
+  - destruct (Z_le_gt_dec L0 (read_off (net_get st y))) as [Hdone | Hmore].
+    + exists [], evs, st. split; [reflexivity|]. split; [reflexivity|]. split; [exact Hrun | exact Hdone].
+    + assert (Hlate1 : net_now st y + Da < net_now st' y) by (rewrite Nat2Z.inj_succ in Hlate; nia).
+      destruct (read_round evs fa st st' L0 (read_off (net_get st y)) HDa HN Ho Hsy HRun Hfair Hrun eq_refl
+                  ltac:(lia) HL Hlate1)
+        as (pre & post & fa1 & st1 & -> & Hp1 & Hp2 & HR1 & Hf1 & HN1 & Ho1 & Hsy1 & (HQ & HL1) & Hclk).
+      assert (Hm1 : L0 - read_off (net_get st1 y) <= Z.of_nat m) by (rewrite Nat2Z.inj_succ in Hm; lia).
+      assert (Hlate2 : net_now st1 y + Z.of_nat m * Da < net_now st' y) by (rewrite Nat2Z.inj_succ in Hlate; nia).
+      destruct (IH post fa1 st1 st' L0 HDa HN1 Ho1 Hsy1 HR1 Hf1 Hp2 HL1 Hm1 Hlate2)
+        as (pre2 & post2 & st2 & -> & Hq1 & Hq2 & HU).
+      exists (pre ++ pre2), post2, st2. split; [rewrite app_assoc; reflexivity|].
+      split; [eapply net_run_app; eassumption|]. split; assumption.
+Qed.
+
+(* STEP 5, the property's own words for the data part: every octet accepted by send (up to the L0
+   octets written so far) is eventually DELIVERED TO THE PEER APPLICATION - on every fair run on which
+   the safety facts hold, before the clock has advanced by n * W3 + m * Da, with n bounding the
+   octets still unacknowledged and m the octets the peer application has still to read. *)
+Theorem all_written_bytes_eventually_delivered : forall n m evs fa st st' L0,
+  0 <= Dt -> 0 <= Dack -> 0 <= Da ->
+  NI st -> opts_ok st -> dl_sync Da fa st ->
+  run_all safe st evs -> fair_run Dt Da fa st evs -> net_run st evs = Ok st' ->
+  L0 <= l_len (ep_written (net_get st x)) ->
+  L0 - una_off (net_get st x) <= Z.of_nat n ->
+  L0 - read_off (net_get st y) <= Z.of_nat m ->
+  net_now st x + Z.of_nat n * W3 + Z.of_nat m * Da < net_now st' x ->
+  exists pre post st1, evs = pre ++ post /\ net_run st pre = Ok st1 /\ net_run st1 post = Ok st' /\
+                       L0 <= read_off (net_get st1 y).
+Proof.
+  intros n m evs fa st st' L0 HDt HDk HDa HN Ho Hsy HRun Hfair Hrun HL Hn Hm Hlate.
+  assert (HmDa : 0 <= Z.of_nat m * Da) by nia.
+  destruct (all_acked_cont n evs fa st st' L0 HDt HDk HN Ho Hsy HRun Hfair Hrun HL Hn ltac:(lia))
+    as (pre & post & fa1 & st1 & -> & Hp1 & Hp2 & HR1 & Hf1 & HN1 & Ho1 & Hsy1 & _ & HRc & Hclk).
+  assert (Hrd1 : read_off (net_get st y) <= read_off (net_get st1 y)).
+  { destruct (net_run_mono _ _ _ Hp1 y) as (_ & Hr & _). apply TcpNetCompose_l_len_prefix in Hr. exact Hr. }
+  assert (Hsk : net_now st' y - net_now st' x = net_now st1 y - net_now st1 x) by apply (net_run_skew2 _ _ _ y x Hp2).
+  destruct (all_accepted_eventually_read m post fa1 st1 st' L0 HDa HN1 Ho1 Hsy1 HR1 Hf1 Hp2 HRc ltac:(lia) ltac:(lia))
+    as (pre2 & post2 & st2 & -> & Hq1 & Hq2 & HU).
+  exists (pre ++ pre2), post2, st2. split; [rewrite app_assoc; reflexivity|].
+  split; [eapply net_run_app; eassumption|]. split; assumption.
+Qed.
+
 End All.
